@@ -188,7 +188,7 @@ Section UMNFacts.
   Variable w : world.
 
   Lemma umn_scan_files names : forall files links f ls,
-    umn_scan plf alts w names files links = Ok (f, ls) ->
+    umn_scan plf fx alts w names files links = Ok (f, ls) ->
     f = files ++ filter (visible_umn alts w) names.
   Proof.
     induction names as [|n r IH]; simpl; intros files links f ls H.
@@ -222,7 +222,7 @@ Section UMNFacts.
   Lemma umn_exact enum l :
     NoDup enum -> umn_listing_gen plf fx alts mode w enum = Ok l ->
     exists links fes,
-      umn_scan plf alts w (enum_order fx enum) [] [] =
+      umn_scan plf fx alts w (enum_order fx enum) [] [] =
         Ok (filter (visible_umn alts w) (enum_order fx enum), links) /\
       prep_entries (fx_skip_child fx) (umn_child plf mode w)
         (sort_names (filter (visible_umn alts w) (enum_order fx enum))) = Ok fes /\
@@ -232,7 +232,7 @@ Section UMNFacts.
       NoDup (dir_names l).
   Proof.
     intros ND H. unfold umn_listing_gen in H.
-    destruct (umn_scan plf alts w (enum_order fx enum) [] []) as [[files links]|] eqn:S; simpl in H; [|discriminate].
+    destruct (umn_scan plf fx alts w (enum_order fx enum) [] []) as [[files links]|] eqn:S; simpl in H; [|discriminate].
     pose proof (umn_scan_files _ _ _ _ _ S) as Ef. simpl in Ef. subst files.
     destruct (prep_entries _ _ _) as [fes|] eqn:P; simpl in H; [|discriminate].
     destruct (merge_link_files fx links (tag_origin fes)) as [merged|] eqn:Mg; simpl in H; [|discriminate].
